@@ -66,6 +66,23 @@ theorem walk_is_first_definer (defs : Nat → Nat → Bool) (a : Nat) (mro : Lis
     pyLookupIn defs a mro = mro.find? (fun c => defs c a) :=
   pyLookupIn_eq defs a mro
 
+/-- **Lookups through `super()`.** A method found along `mro(type(self))` in class `j` that reads
+`super().a` gets the definition CPython's `super(j, self).a` finds: pytype's "skip the set of
+classes up to `j`" equals CPython's "continue after `j`" because stored MROs are duplicate-free. -/
+theorem super_lookup_eq (H : Hier) (hwf : wfHier H = true) (hnd : nodupBases H = true)
+    (defs sdefs : Nat → Nat → Bool) (i a : Nat) :
+    pySuperRead H defs sdefs i a = cSuperRead H defs sdefs i a := by
+  unfold pySuperRead cSuperRead
+  rw [mro_eq_partial H hwf hnd i]
+  cases hm : cpythonMro H i with
+  | error e => rfl
+  | ok m =>
+    have hnodup : m.Nodup := (cMroTable_inv H hwf hnd i m hm).1
+    simp only [pyLookupIn_eq]
+    cases cLookupIn sdefs a m with
+    | none => rfl
+    | some j => simp only [super_walk_eq defs a j m hnodup]
+
 /-- **Known finding.** `class A: pass` / `class C(A, A): pass`: the model of pytype (through
 `Dedup`) returns `[C, A, object]`, CPython raises "duplicate base class". -/
 theorem mro_dup_witness :
@@ -118,6 +135,13 @@ example : pyLookup exH (fun c a => (c == 1 && a == 0) || (c == 2 && a ≤ 1)) 3 
     pyLookup exH (fun c a => (c == 1 && a == 0) || (c == 2 && a ≤ 1)) 3 1 = .ok (some 2) ∧
     cLookup exH (fun c a => (c == 1 && a == 0) || (c == 2 && a ≤ 1)) 4 0 = .ok (some 2) ∧
     cLookup exH (fun c a => (c == 1 && a == 0) || (c == 2 && a ≤ 1)) 4 2 = .ok none := by decide
+-- super(): A defines a, B(A) has the reader, C(A) defines a, D(B, C): D().s() reads C's a, B().s() reads A's
+example : pySuperRead [[], [0], [1], [1], [2, 3]] (fun c _ => c == 1 || c == 3) (fun c _ => c == 2) 4 0
+      = .definer 3 ∧
+    cSuperRead [[], [0], [1], [1], [2, 3]] (fun c _ => c == 1 || c == 3) (fun c _ => c == 2) 2 0
+      = .definer 1 ∧
+    cSuperRead [[], [0], [1], [1], [2, 3]] (fun c _ => c == 1 || c == 3) (fun c _ => c == 2) 1 0
+      = .noMethod := by decide
 -- merge: hypotheses of merge_eq_pmerge on a 4-sequence input, and an input where they fail and
 -- the two sides really differ (own tail inspected or not)
 example : (∀ s ∈ [[3], [1, 0], [2, 0], [1, 2]], s.Nodup) ∧
